@@ -49,7 +49,7 @@ func bounds(r *core.Run) (T, O, K int) {
 	return
 }
 
-// cross-format section: truncations of every seed under every format (quick: 16, thorough: 64)
+// cross-format section: truncations of every seed under every format (quick: 8, thorough: 64)
 var crossTrunc = 64
 
 // seedCaps: a seed is decoded, dumped and converted ~2700 times; candidates whose
@@ -91,7 +91,7 @@ func run(r *core.Run) {
 	}
 	w.startWatchdog()
 	T, O, K := bounds(r)
-	crossTrunc = core.Pick(r, 16, 64)
+	crossTrunc = core.Pick(r, 8, 64)
 	formats := formatNames()
 	only := os.Getenv("VERIF_ONLY")
 
@@ -268,7 +268,12 @@ func run(r *core.Run) {
 	if only == "" || only == "struct" {
 		markCut("struct")
 		maxR := core.Pick(r, 120, 600)
-		structSeeds := append(append([]*Seed{}, seeds...), w.cover...)
+		structSeeds := append([]*Seed{}, seeds...)
+		for _, cs := range w.cover {
+			if of := os.Getenv("C06_FORMAT"); of == "" || of == cs.Format {
+				structSeeds = append(structSeeds, cs)
+			}
+		}
 		total["struct_seeds"] = int64(len(structSeeds))
 		total["struct_coverage_seeds"] = int64(len(w.cover))
 		for si, s := range structSeeds {
@@ -290,6 +295,41 @@ func run(r *core.Run) {
 				ord := si*1000 + li%1000
 				runCase("struct", ord, Case{Sec: "struct", Format: s.Format, Seed: s, Mut: &m}, mk)
 				runCase("struct", ord, Case{Sec: "struct", Format: "probe", Probe: true, Seed: s, Mut: &m}, mk)
+			}
+			// text leaves (printable ASCII of at most 8 bytes: ids, tags, decimal and octal
+			// numbers): every byte replaced by a sign, a digit and punctuation
+			chars := textChars[:core.Pick(r, 2, len(textChars))]
+			for li, rg := range leaves {
+				if rg[1] > 8 || !printable(s.Data[rg[0]:rg[0]+rg[1]]) {
+					continue
+				}
+				total["struct_text_leaves"]++
+				for off := rg[0]; off+2 <= rg[0]+rg[1]; off++ {
+					for pi := range textPairs[:core.Pick(r, 1, len(textPairs))] {
+						m := Mut{Op: "ch2v", Off: off, Val: pi}
+						if !m.Applies(s.Data, T) {
+							continue
+						}
+						s, m := s, m
+						mk := func() []byte { return m.Apply(s.Data) }
+						ord := si*1000 + li%1000
+						runCase("struct", ord, Case{Sec: "struct", Format: s.Format, Seed: s, Mut: &m}, mk)
+						runCase("struct", ord, Case{Sec: "struct", Format: "probe", Probe: true, Seed: s, Mut: &m}, mk)
+					}
+				}
+				for off := rg[0]; off < rg[0]+rg[1]; off++ {
+					for _, ch := range chars {
+						m := Mut{Op: "chv", Off: off, Val: int(ch)}
+						if !m.Applies(s.Data, T) {
+							continue
+						}
+						s, m := s, m
+						mk := func() []byte { return m.Apply(s.Data) }
+						ord := si*1000 + li%1000
+						runCase("struct", ord, Case{Sec: "struct", Format: s.Format, Seed: s, Mut: &m}, mk)
+						runCase("struct", ord, Case{Sec: "struct", Format: "probe", Probe: true, Seed: s, Mut: &m}, mk)
+					}
+				}
 			}
 			for ri, rg := range rs {
 				for _, op := range structuralOps {
@@ -475,7 +515,7 @@ func (w *worker) sentinel() bool {
 // parent: derive the completed grid prefix when the deadline cut the enumeration.
 func parent(r *core.Run) {
 	T, O, _ := bounds(r)
-	crossTrunc = core.Pick(r, 16, 64)
+	crossTrunc = core.Pick(r, 8, 64)
 	grid := Grid(T, O)
 	res := map[string]any{}
 	for _, sec := range []string{"empty", "own", "struct", "cross"} {
@@ -681,4 +721,16 @@ func replay(r *core.Run, raw json.RawMessage) bool {
 	}
 	fmt.Println("  expected: a decode tree or a reported decode error, exit status 0/4/5, no Go panic, no runtime fatal error")
 	return violated
+}
+
+func printable(b []byte) bool {
+	if len(b) == 0 {
+		return false
+	}
+	for _, c := range b {
+		if c < 0x20 || c > 0x7e {
+			return false
+		}
+	}
+	return true
 }
